@@ -874,6 +874,11 @@ func (e *Eff) callEffects(fn *ssa.Function, c ssa.CallInstruction, emit func([]R
 		if com.Method.Name() == "Error" || com.Method.Name() == "String" {
 			// fallthrough to call-graph callees below (module String methods)
 		}
+		if com.Method.Name() == "Read" && len(com.Args) == 1 {
+			// io.Reader.Read(p): fills p
+			emit(prefixAll(e.MemRoots(com.Args[0]), "[*]"), "Reader.Read (fills its buffer)", c, "")
+			return
+		}
 	}
 	callees := e.P.Callees(c)
 	if len(callees) == 0 {
